@@ -40,6 +40,7 @@
   built-in chains: frame_foreign); correspondence of the strict primitive semantics with a kernel (harness/nf).
 -/
 import Galaxy.Lemmas.PolicyNames
+import Galaxy.Lemmas.PolicyDelete
 
 namespace Galaxy.Props.C15
 open Galaxy.Policy
@@ -367,6 +368,44 @@ theorem fact_sync_order :
     writeChainsCollectsPolicyPrefixOnly = true ∧ writeChainsDeletesWithX = true ∧ syncRulesOrder = true ∧
     syncNetworkPolicyRulesUnconditional = true ∧
     syncPodOrderDeleteThenNoIPThenBase = true ∧ chainNotExistErr = "No chain/target/match by that name" := by
+  decide
+
+/-! ## deletePodChains touches nobody else's hook -/
+
+/-- FRAME OF ONE deletePodChains CALL, for every kernel state: in every chain other than the pod's own chain
+    (GLX-INGRESS, GLX-EGRESS, every other pod's chain, policy chains, foreign chains) the rules that do not jump to
+    THIS pod's chain are all still there, in their order, and no ipset changes.  In particular the hook of another pod
+    (whatever its name, namespace or comment text) survives.  The model finds the rule by its jump target, which is what
+    the source does as long as the keyword handed to deletePodRuleByKeyword is the pod chain name and ListRule lines
+    have the `-A <chain> …` form: `fact_delete_pod_chains`.  (A search by the comment `<name>_<namespace>` takes the
+    hooks of pods whose name_namespace contains that text: harness signature `pod-hook-of-other-pod-removed`.) -/
+theorem delete_pod_chains_frame (k : Kern) (q : Pod) (c : Chain) (hc : c ≠ .pod q.hash) :
+    (hooks (deletePodChains k q).1.tbl c).filter (fun r => !r.jumpsTo (.pod q.hash)) =
+      (hooks k.tbl c).filter (fun r => !r.jumpsTo (.pod q.hash)) ∧
+    (deletePodChains k q).1.sets = k.sets :=
+  deletePodChains_others k q c hc
+
+/-- the statement is not empty: two pods whose names contain one another (db-0_prod / db-0_prod2), both hooked;
+    deleting the chains of the first leaves the hook of the second and removes its own -/
+theorem delete_pod_chains_example :
+    let q1 : Pod := ⟨"prod", "db-0", "AAAAAAAAAAAAAAAA", "node1", some (ip4 10 0 1 1), []⟩
+    let q2 : Pod := ⟨"prod2", "db-0", "BBBBBBBBBBBBBBBB", "node1", some (ip4 10 0 2 1), []⟩
+    let k : Kern := ⟨[], [(.glxIngress, hookRule true q1 ++ hookRule true q2), (.glxEgress, hookRule false q2),
+      (.pod q1.hash, []), (.pod q2.hash, [])]⟩
+    hooks (deletePodChains k q1).1.tbl .glxIngress = hookRule true q2 ∧
+    hooks (deletePodChains k q1).1.tbl .glxEgress = hookRule false q2 ∧
+    Tbl.get (deletePodChains k q1).1.tbl (.pod q1.hash) = none ∧ (deletePodChains k q1).2 = [] := by
+  decide
+
+/-- deletePodChains searches the hooks of GLX-INGRESS and GLX-EGRESS by the POD CHAIN NAME (not by the pod's comment),
+    then flushes and deletes the pod chain; deletePodRuleByKeyword takes the FIRST ListRule line containing the keyword,
+    drops its first two words (`-A <chain>`: the `iptables -S` line format harness/nf answers with) and deletes that rule -/
+theorem fact_delete_pod_chains :
+    deletePodChainsCalls = [("ingressChain", "string(utiliptables.Chain(podChainName(pod)))"),
+      ("egressChain", "string(utiliptables.Chain(podChainName(pod)))")] ∧
+    deletePodChainsOrder = ["deletePodRuleByKeyword", "deletePodRuleByKeyword", "FlushChain", "DeleteChain"] ∧
+    deleteByKeywordMatch = "strings.Contains(line, keyword)" ∧ deleteByKeywordFirstMatchOnly = true ∧
+    deleteByKeywordDropsWords = 2 := by
   decide
 
 end Galaxy.Props.C15
